@@ -105,6 +105,24 @@ func main() {
 				fmt.Printf("   %s %s base=%s val=%s args=%v\n", ef.Kind, ef.Target, ef.Base, ef.Val.String(), ef.Args)
 			}
 		}
+	case "symseg":
+		c := NewCtx("adhoc", tier, repo, verif)
+		p := c.G()
+		fd := p.Func(pos[0])
+		sps := p.LoopSegmentPaths(fd, mainSwitchLoop(p, fd), 100000)
+		fmt.Println("segment paths:", len(sps))
+		for i, sp := range sps {
+			if len(pos) > 1 && fmt.Sprint(i) != pos[1] {
+				continue
+			}
+			fmt.Printf("--- path %d feasible=%v exit=%v\n", i, sp.Feasible(), sp.RetNode != nil)
+			for _, cd := range sp.Conds {
+				fmt.Println("   cond:", cd.String())
+			}
+			for _, ef := range sp.Effects {
+				fmt.Printf("   %s %s base=%s val=%s args=%v\n", ef.Kind, ef.Target, ef.Base, ef.Val.String(), ef.Args)
+			}
+		}
 	case "describe":
 		b, _ := json.MarshalIndent(props, "", " ")
 		fmt.Println(string(b))
